@@ -6,6 +6,9 @@ PROPS = {
     "C02": dict(machine="solver", level="fault_enumeration",
                 quick=dict(runs=24000, cap=60, selftest=200),
                 thorough=dict(runs=400000, cap=900, selftest=2000)),
+    "C09": dict(machine="unitscope", level="fault_enumeration",
+                quick=dict(runs=8000, cap=60, selftest=150),
+                thorough=dict(runs=200000, cap=900, selftest=1500)),
 }
 
 
@@ -13,4 +16,7 @@ def machine(name):
     if name == "solver":
         from .m_solver import SolverMachine
         return SolverMachine
+    if name == "unitscope":
+        from .m_unitscope import UnitScopeMachine
+        return UnitScopeMachine
     raise KeyError(name)
